@@ -170,11 +170,17 @@ impl Prop for C02Prop {
         let q = tier == Tier::Quick;
         let mut v = wf::wf_streams(tier, 2);
         v.push(Stream::random("seeds", if q { 500 } else { 5000 }, 32));
+        v.push(Stream::random("lits", if q { 1500 } else { 20000 }, 300));
+        v.push(Stream::random("mlprog", if q { 400 } else { 6000 }, 700));
         v
     }
     fn generate(&self, stream: &str, t: &mut Tape) -> Option<Case> {
         if stream == "seeds" {
             return seed_case(t);
+        }
+        if stream == "lits" || stream == "mlprog" {
+            // the multi-line literal shapes of C12 (its generator), judged by C02's oracle
+            return crate::props::c12::C12.generate(stream, t);
         }
         wf::wf_generate(stream, t, true)
     }
